@@ -8,7 +8,7 @@ import re, itertools
 from urllib.parse import quote, unquote, parse_qsl
 from vlib import common as C
 
-DRIVERS = ['Query']   # model driver files this check runs: scopes translator failures to the tables they (and the proofs) import
+DRIVERS = ['Query', 'Serve']   # model driver files this check runs: scopes translator failures to the tables they (and the proofs) import
 TRUSTED = ['Rust std as modelled: str::replace (Rws.replaceAll), str::split on an ASCII byte, str::trim / char::is_whitespace '
            '(White_Space table written out in Rws/Query.lean, exercised for every scalar in the thorough tier), String::from_utf8 '
            '(Rws.Query.validUtf8), char::is_ascii_control, usize::from_str, HashMap::insert (last insertion wins), stable slice::sort_by',
@@ -19,8 +19,9 @@ TRUSTED = ['Rust std as modelled: str::replace (Rws.replaceAll), str::split on a
 ASSUMPTIONS = ['protocol glue: hex fields; pairs as <key>:<value> lists; HashMap results printed sorted by key on both sides',
                'independent oracle: CPython urllib.parse.quote/unquote/parse_qsl for the encoder output',
                'printable = str.isprintable() (excludes controls, format characters, separators other than U+0020, unassigned)',
-               'the echo endpoints themselves are exercised by the server-level slices; here the three entry points are '
-               'URL::parse_query, FormUrlEncoded::parse and Request::get_uri_query']
+               'the three codec entry points are URL::parse_query, FormUrlEncoded::parse and Request::get_uri_query; the echo endpoints are '
+               'driven through the server model and the real Server::process / process_request (echo_part): maps of 1..20 names including names '
+               'that differ only in case, accents or width']
 
 # the characters `encode_uri_component` escapes — written from the crate's documentation/test, not from the model
 ENCODED = set('% \r\n!"#$&\'()*+,/:;=@[]')
@@ -154,6 +155,55 @@ FULL_URLS = ['', ':', 'a', 'a:', 'a:b', 'http://', 'http:///', 'http://h', 'http
     'http://a]b]c:8/', 'http://h:+8/', 'http://u@v@h/', 'x:/a//b/c', 'x:a//b', 'x:?a//b', 'x://h?a/b', 'x://h#a/b', 'x://h?a#b/c', 'x://h/p#a?b',
     'x:p?q#', 'x:p?#f', 'x:p#', 'x:#', 'x:?', 'x:p?a=%2526&%26=1', '://', ':///', 'http://h:99999999999999999999/']
 
+def echo_part(res, rng, pool, tier):
+    """third entry point of the property: the form echo endpoints of the server (GET /form-get-method?<query> and POST
+    /form-url-encoded-enctype-post-method with the encoded body).  The query / body is what a correct encoder with the crate's
+    escape set prints (py_encode).  Oracle on the implementation alone: the answer is 200 and its lines are exactly
+    {`<name> is <value>`}; fields holding a literal %XY of a later-processed code are left to the codec part (F27)."""
+    from vlib import serve as S, servecheck as K
+    quick = tier == 'quick'
+    tree = S.gen_tree(rng, small=True)
+    cases, maps = [], []
+    def add(m):
+        q = '&'.join(py_encode(k) + '=' + py_encode(v) for k, v in m.items())
+        if len(q.encode()) > 6000: return
+        cases.append(K.mk(tree, 'GET', '/form-get-method?' + q, [], entry=rng.choice(['proc', 'preq']), kind='echo-get')); maps.append(m)
+        cases.append(K.mk(tree, 'POST', '/form-url-encoded-enctype-post-method', [('Content-Type', 'application/x-www-form-urlencoded')], q.encode(),
+                          entry=rng.choice(['proc', 'preq']), kind='echo-post')); maps.append(m)
+    # names that differ only in letter case, in accents, in width, by a trailing character: distinct fields all the same
+    add({'Name': '1', 'name': '2', 'NAME': '3', 'other': '4'})
+    add({'a': 'x', 'A': 'y'}); add({'ß': '1', 'SS': '2', 'ss': '3'}); add({'é': '1', 'É': '2', 'e': '3'}); add({'k': '1', 'k ': '2', ' k': '3', 'K': '4'})
+    add({'ｋ': '1', 'k': '2'}); add({'i': '1', 'I': '2', 'ı': '3', 'İ': '4'}); add({'a&b': 'c=d', 'a': 'b&c', 'a=b': '', 'x': '?#/+ '})
+    for i in range(120 if quick else 4000):
+        n = rng.choice([1, 1, 2, 3, 5, 8, 13, 20])
+        m = {}
+        for _ in range(n * 3):
+            if len(m) >= n: break
+            k = gen_text(rng, pool, 12, True, False).replace('%', 'p')
+            if m and rng.chance(1, 4):
+                base = rng.choice(list(m.keys()))
+                k = rng.choice([base.swapcase(), base.lower(), base.upper(), base.capitalize(), base + 'a', 'A' + base])
+            if not k or k in m: continue
+            m[k] = gen_text(rng, pool, 30, False, False).replace('%', 'p')
+        add(m)
+    results = K.run_batches([(tree, cases)], with_model=True)
+    for (c, r, il, ml), m in zip(results, maps):
+        res.evaluations += 1; res.programs += 1
+        res.distinct.add(hash((c.entry, c.raw)))
+        if il != ml: res.disagree(c.line[:400], il[:300], (ml or '')[:300], 'form echo controllers')
+        if r['head'].startswith(('panic', 'abort')):
+            res.fail('echo-panic', c.line[:300], r['head'], None, 'C17: the echo endpoint panicked'); continue
+        resp, why = K.parse_resp(r['writes'][0] if r['writes'] else b'')
+        res.count(c.kind + (' case-variant names' if len({k.lower() for k in m}) < len(m) else ''))
+        if resp is None: continue      # framing: C05
+        want = sorted((k + ' is ' + v).encode() for k, v in m.items())
+        got = sorted(x for x in resp['body'].split(b'\r\n') if x) if resp['status'] == 200 else None
+        if got != want:
+            miss = [w for w in want if got is None or w not in got]
+            res.fail('echo-roundtrip', c.line[:300], f'status {resp["status"]} body {resp["body"][:120]!r}', None,
+                     f'C17: {c.kind} did not return the submitted fields: missing or altered {miss[:3]} of {len(want)} fields')
+    return len(cases)
+
 def run(res, tier, seed):
     rng = C.Rng(seed)
     pool = printable_pool(rng.fork('pool'), 400)
@@ -253,7 +303,8 @@ def run(res, tier, seed):
                 'random texts (reserved & = % + ? # / space, other escaped ASCII, multi-byte, astral, "%"+hex, "%"+non-hex, up to 3000 chars) through '
                 'encode->decode (qrt); maps of 0..20 distinct non-empty keys (every 40th with values up to 400 chars, total <= 9000 bytes) through '
                 'build_query->parse_query, generate->FormUrlEncoded::parse and "/form-get-method?"+query->Request::get_uri_query in one block op (maprt); '
-                'keys that the known double decoding would merge are not put in the same map; raw inputs for parse_query/decode/FormUrlEncoded::parse '
+                'keys that the known double decoding would merge are not put in the same map; the echo endpoints (GET query and POST body, both entry points of the server) on maps of 1..20 names, '
+                'a quarter of the names being case / accent / width variants of another name of the same map, against the server model and the oracle "the lines of the answer are exactly the fields"; raw inputs for parse_query/decode/FormUrlEncoded::parse '
                 '(all strings of length<=' + str(4 if quick else 6) + ' over {a,=,&,%,2}, white space of every kind, control bytes, invalid UTF-8); URL parsing on '
                 'hand-made weird targets, all strings of length<=' + str(3 if quick else 4) + ' over {/,?,#,:,@,],a,1} and random ones; non-trivial = non-empty '
                 'input; distinct = distinct lines')
@@ -315,6 +366,7 @@ def run(res, tier, seed):
                          f'{entry} entry point returned {str(got)[:120]} for submitted {str(want)[:120]}')
         else:
             res.count(kind + ' ' + ln.split(' ', 1)[0])
+    echo_part(res, rng.fork('echo'), pool, tier)
     k = next(i for i, mt in enumerate(meta) if mt[0] == 'map' and len(mt[1]) >= 2)
     res.sample({'op': lines[k][:160], 'implementation': impl[k][:200], 'model': model[k][:200]})
     res.sample({'op': lines[0], 'text': '%26', 'implementation': impl[0], 'model': model[0]})
